@@ -155,14 +155,30 @@ def gen(rng, knobs):
         hostile = [["send", json.dumps(["REQ", "f%d" % i, {"kinds": [1]}]), "probe"] for i in range(rng.randint(6, 14))]
         hostile.append(rng.choice([["disconnect"], ["send", "{not json", "garbage"], ["disconnect"]]))
         good = [["wait", 2.0]] + good
+    if not flood and rng.random() < 0.1:
+        # the relay itself hangs up (1013) on a connection whose queue was touched before: a subscription is
+        # closed or replaced while its results are still queued for a slow reader, later a frame makes the
+        # handler give up (or the idle time-out fires); the hang-up must complete and clean up
+        flood = True
+        pre = [h.regular(kind=1) for _ in range(rng.randint(4, 10))]
+        hostile = [["send", json.dumps(["REQ", "a", {"kinds": [1]}]), "probe"],
+                   rng.choice([["send", json.dumps(["CLOSE", "a"]), "probe"],
+                               ["send", json.dumps(["REQ", "a", {"kinds": [1, 7]}]), "probe"]]),
+                   ["send", json.dumps(["REQ", "b", {"kinds": [1]}]), "probe"]]
+        if rng.random() < 0.7:
+            hostile.append(["send", rng.choice(['["REQ","h",{"#e":[[]]}]', '["REQ","h",{"#e":[{}]}]',
+                                                '["REQ","h",{"kinds":[[1]]}]', "[" * 3000 + "]" * 3000]), "crash"])
+            hostile.append(["send", json.dumps(["REQ", "after", {"kinds": [1]}]), "probe"])
+        good = [["wait", 2.0]] + good
     faults = sorted(rng.sample(range(5, 120), rng.choice([0, 0, 0, 1, 2]))) if backend == "sql" and not flood else []
     limits = rng.choice([None, None, {"ip": {"EVENT": "3/s", "REQ": "4/s"}}, {"global": {"EVENT": "2/s"}, "ip": {"REQ": "2/s,5/m"}}])
     return {"backend": backend, "preload": pre, "faults": faults, "p_buffered": rng.choice([0.0, 0.3, 0.7, 1.0]),
             "rate_limits": limits, "via_api": rng.random() < 0.5,
             "message_timeout": rng.choice([1800, 1800, 30, 5]),
-            "clients": [{"script": hostile, "slow": flood or rng.random() < 0.2,
+            "clients": [{"script": hostile, "slow": flood or rng.random() < 0.2, "close_fails": rng.random() < 0.2,
                          "origin": rng.choice(["", "", "https://client.example", "http://bad.actor", "HTTP://BAD.ACTOR"])},
                         {"script": good, "slow": rng.random() < 0.2}],
+            "storage_opts": histgen.pool_knob(rng, backend),
             "sched": {**histgen.stall_knob(rng), "client": rng.choice([0.5, 1.0, 3.0]), "sql": rng.choice([0.3, 1.0, 3.0]),
                       "exec": rng.choice([0.2, 1.0]), "writer": rng.choice([0.2, 1.0]),
                       "pool": rng.choice([0.3, 1.0]), "ready": rng.choice([1.0, 4.0, 8.0])}}
@@ -186,7 +202,9 @@ def run(case, sim):
                for c in case["clients"]]
     for i, c in enumerate(clients):
         c["origin"] = case["clients"][i].get("origin", "")
+        c["close_fails"] = case["clients"][i].get("close_fails", False)
     w = relay.RelayWorld(sim, backend, clients, preload=case.get("preload"), p_buffered=case.get("p_buffered", 0.0),
+                         storage_opts=case.get("storage_opts"),
                          rate_limits=case.get("rate_limits"),
                          cfg={"origin_blacklist": ["http://bad.actor"], "message_timeout": case.get("message_timeout", 1800)})
     w.via_api = bool(case.get("via_api"))
@@ -211,7 +229,10 @@ def run(case, sim):
     answered = []
     for c in w.clients:
         role = "hostile" if c.idx == 0 else "good"
-        if c.exc is not None:
+        benign = (c.exc is not None and c.exc.startswith("WebSocketDisconnected") and not getattr(c, "accepted", False))
+        # (before the connection is accepted there is nothing to clean up, and falcon itself ends a responder
+        #  that lets WebSocketDisconnected out: refusing a peer that is already gone is not a failure)
+        if c.exc is not None and not benign:
             viol.append({"cls": "handler-raised", "sig": "handler-raised|%s|%s|%s" % (backend, role, c.exc.split(":")[0]),
                          "detail": {"client": c.idx, "exc": c.exc}})
         if not c.finished:
